@@ -159,6 +159,7 @@ def e2_merge_algo(ctx):
 def e1_gen_api(ctx):
     tlc_mc(ctx, "GenAPI", "MC_GenAPI.cfg" if ctx.quick else "MC_GenAPI_thorough.cfg")
     tlc_mc(ctx, "GenAPI", "MC_GenAPI_dev_MergeTouchesBitmap.cfg", workers=4, expect_violation="BitmapsImmutable")
+    tlc_mc(ctx, "GenAPI", "MC_GenAPI_dev_SharedEmptyStats.cfg", workers=8, expect_violation="StatsIndependent")
 
 
 def e2_gen_api(ctx, num):
@@ -167,10 +168,12 @@ def e2_gen_api(ctx, num):
     # many more histories are simulated than executed: a third of the executed ones are drawn from those that
     # contain a merge with a caller-owned bitmap (rare in a uniform random walk), so that no seed runs without them
     behs = tlc_emit(ctx, "GenAPI", "Gen_GenAPI.cfg", os.path.join(ctx.work, "beh-api.json"),
-                    extra=["-simulate", "num=%d" % max(20 * num, 2000), "-depth", "20", "-seed", str(ctx.seed)])
+                    extra=["-simulate", "num=%d" % max(5 * num, 400), "-depth", "20", "-seed", str(ctx.seed)])
+    # (one simulated trace yields all its one-step variants; tlc_emit shuffles them)
     behs = lift.dedupe(behs)
     rare = [b for b in behs if any(h["op"] == "merge" and any(h["drops"]) for h in b["hist"])]
-    pick = rare[:max(num // 3, 4)]
+    rare2 = [b for b in behs if any(h["op"] == "stats_add" for h in b["hist"])]
+    pick = rare[:max(num // 3, 4)] + rare2[:max(num // 6, 4)]
     keys = set(json.dumps(b, sort_keys=True) for b in pick)
     behs = pick + [b for b in behs if json.dumps(b, sort_keys=True) not in keys][:num - len(pick)]
     run_scenarios(ctx, [lift.lift_api(b, i) for i, b in enumerate(behs)], "e2api", perfile=10, shards=4)
@@ -400,7 +403,7 @@ def plan_C14(ctx):
 def plan_C15(ctx):
     e1_gen_api(ctx)
     e2_gen_api(ctx, n_of(ctx, 60, 1200))
-    require_cov(ctx, "tag:api_merge_with_bitmap", "tag:api_prealloc")
+    require_cov(ctx, "tag:api_merge_with_bitmap", "tag:api_prealloc", "tag:api_stats_add")
     run_family(ctx, "immut", n_of(ctx, 80, 1500), perfile=n_of(ctx, 8, 20))
     canary(ctx)
 
